@@ -1,18 +1,27 @@
-//! The monomorphised width set (const generics cannot be chosen at run time).
+//! The monomorphised width sets (const generics cannot be chosen at run time).
 //!
-//! Shape classes (DESIGN §2.5): zero; sub-byte; byte-aligned non-limb; `BYTES % 8 == 0 &&
-//! BITS % 64 != 0` (60, 63, 121, 127, 250, 255: whole-limb decode fast path with a non-trivial
-//! mask); limb-aligned; RLP 55/56-byte boundary (440/441/448); SCALE compact limit (535/536);
-//! DER length-form boundaries (1024, 2048). BITS % 8 covers every residue 0..=7
-//! (2, 3, 12, 13, 30, 31, ...).
+//! Set A (default build) — shape classes (DESIGN §2.5): zero; sub-byte; byte-aligned non-limb;
+//! `BYTES % 8 == 0 && BITS % 64 != 0` (60, 63, 121, 127, 250, 255: whole-limb decode fast path
+//! with a non-trivial mask); limb-aligned; RLP 55/56-byte boundary (440/441/448); SCALE compact
+//! limit (535/536); DER length-form boundaries (1024, 2048). BITS % 8 covers every residue.
+//!
+//! Set B (cargo feature `widths-b`, built by the thorough tier into its own target directory) —
+//! 42 further widths of the same shape classes (other residues, other limb counts incl. 9..15
+//! limbs, the remaining bytemuck Pod widths 576..960, ark-ff's 832), so that nothing silently
+//! depends on the particular widths of set A.
 
-pub const WIDTHS: &[usize] = &[
-    0, 1, 2, 3, 7, 8, 12, 13, 16, 30, 31, 32, 33, 60, 63, 64, 65, 72, 100, 121, 127, 128, 129, 160,
-    192, 200, 250, 255, 256, 257, 320, 384, 440, 441, 448, 512, 520, 535, 536, 768, 1024, 2048,
-    4096,
-];
+#[cfg(not(feature = "widths-b"))]
+pub const WIDTHS: &[usize] = &[0, 1, 2, 3, 7, 8, 12, 13, 16, 30, 31, 32, 33, 60, 63, 64, 65, 72, 100, 121, 127, 128, 129, 160, 192, 200, 250, 255, 256, 257, 320, 384, 440, 441, 448, 512, 520, 535, 536, 768, 1024, 2048, 4096];
+#[cfg(feature = "widths-b")]
+pub const WIDTHS: &[usize] = &[4, 5, 6, 9, 15, 24, 40, 48, 56, 57, 61, 66, 80, 96, 112, 120, 126, 130, 136, 184, 191, 193, 224, 248, 264, 272, 300, 400, 447, 449, 504, 528, 576, 600, 640, 704, 832, 896, 960, 1000, 1536, 3000];
 
-/// Width class index used in coverage signatures.
+/// Widths small enough to enumerate every value / every short input.
+#[cfg(not(feature = "widths-b"))]
+pub const SMALL_WIDTHS: &[usize] = &[0, 1, 2, 3, 7, 8, 12, 13];
+#[cfg(feature = "widths-b")]
+pub const SMALL_WIDTHS: &[usize] = &[4, 5, 6, 9, 15];
+
+/// Width class index used in coverage signatures and violation keys.
 pub fn width_class(bits: usize) -> u8 {
     let bytes = (bits + 7) / 8;
     if bits == 0 {
@@ -31,6 +40,7 @@ pub fn width_class(bits: usize) -> u8 {
 }
 
 /// `for_width!(bits, func(args...))` calls `func::<BITS, LIMBS>(args...)`.
+#[cfg(not(feature = "widths-b"))]
 #[macro_export]
 macro_rules! for_width {
     ($bits:expr, $f:ident ( $($a:expr),* $(,)? )) => {
@@ -78,7 +88,59 @@ macro_rules! for_width {
             1024 => $f::<1024, 16>($($a),*),
             2048 => $f::<2048, 32>($($a),*),
             4096 => $f::<4096, 64>($($a),*),
-            other => panic!("width {other} is not monomorphised"),
+            other => panic!("width {other} is not monomorphised in this build (set A)"),
+        }
+    };
+}
+
+#[cfg(feature = "widths-b")]
+#[macro_export]
+macro_rules! for_width {
+    ($bits:expr, $f:ident ( $($a:expr),* $(,)? )) => {
+        match $bits {
+            4 => $f::<4, 1>($($a),*),
+            5 => $f::<5, 1>($($a),*),
+            6 => $f::<6, 1>($($a),*),
+            9 => $f::<9, 1>($($a),*),
+            15 => $f::<15, 1>($($a),*),
+            24 => $f::<24, 1>($($a),*),
+            40 => $f::<40, 1>($($a),*),
+            48 => $f::<48, 1>($($a),*),
+            56 => $f::<56, 1>($($a),*),
+            57 => $f::<57, 1>($($a),*),
+            61 => $f::<61, 1>($($a),*),
+            66 => $f::<66, 2>($($a),*),
+            80 => $f::<80, 2>($($a),*),
+            96 => $f::<96, 2>($($a),*),
+            112 => $f::<112, 2>($($a),*),
+            120 => $f::<120, 2>($($a),*),
+            126 => $f::<126, 2>($($a),*),
+            130 => $f::<130, 3>($($a),*),
+            136 => $f::<136, 3>($($a),*),
+            184 => $f::<184, 3>($($a),*),
+            191 => $f::<191, 3>($($a),*),
+            193 => $f::<193, 4>($($a),*),
+            224 => $f::<224, 4>($($a),*),
+            248 => $f::<248, 4>($($a),*),
+            264 => $f::<264, 5>($($a),*),
+            272 => $f::<272, 5>($($a),*),
+            300 => $f::<300, 5>($($a),*),
+            400 => $f::<400, 7>($($a),*),
+            447 => $f::<447, 7>($($a),*),
+            449 => $f::<449, 8>($($a),*),
+            504 => $f::<504, 8>($($a),*),
+            528 => $f::<528, 9>($($a),*),
+            576 => $f::<576, 9>($($a),*),
+            600 => $f::<600, 10>($($a),*),
+            640 => $f::<640, 10>($($a),*),
+            704 => $f::<704, 11>($($a),*),
+            832 => $f::<832, 13>($($a),*),
+            896 => $f::<896, 14>($($a),*),
+            960 => $f::<960, 15>($($a),*),
+            1000 => $f::<1000, 16>($($a),*),
+            1536 => $f::<1536, 24>($($a),*),
+            3000 => $f::<3000, 47>($($a),*),
+            other => panic!("width {other} is not monomorphised in this build (set B)"),
         }
     };
 }
